@@ -155,6 +155,15 @@ def atom_expr(r):
         lambda: ['eq', ['mkrec', [S('a'), P], [S('b'), acc(C, 'meta')]], lit(gen.vrec([('a', UA), ('b', gen.vrec([('x', gen.vlong(1))]))]))],
         lambda: ['lt', acc(C, 'n'), acc(acc(C, 'meta'), 'x')],
     ]
+    # every relational and arithmetic operator over operands that may be known, unknown or equal (boundary: equal operands)
+    def num():
+        return r.choice([acc(C, 'n'), L(1), L(2), L(5), acc(acc(C, 'r'), 'x'), acc(acc(C, 'r'), 'y'), acc(acc(C, 'meta'), 'x'), ['add', acc(C, 'n'), L(0)],
+                         ['sub', acc(acc(C, 'r'), 'y'), L(4)], ['mul', acc(C, 'n'), L(1)], ['neg', ['neg', acc(C, 'n')]], L(gen.MAX64)])
+    choices += [lambda: [r.choice(['lt', 'le', 'gt', 'ge', 'eq', 'ne']), num(), num()]] * 8
+    choices += [lambda: ['eq', [r.choice(['add', 'sub', 'mul']), num(), num()], L(r.choice([0, 1, 2, 4, 6]))]] * 3
+    choices += [lambda: [r.choice(['containsAll', 'containsAny']), acc(C, 'l'), lit(gen.vset([gen.vlong(z) for z in r.sample([1, 2, 3], r.randrange(0, 3))]))],
+                lambda: ['isEmpty', acc(C, 'l')], lambda: ['ne', acc(C, 'who'), P], lambda: ['ne', P, lit(r.choice([UA, UB]))],
+                lambda: ['like', acc(P, 'name'), ['pat', ['w'], S('ce')]], lambda: ['hasTag', P, lit(gen.vstr(r.choice(['k', 'zz'])))]]
     return r.choice(choices)()
 
 
